@@ -41,11 +41,9 @@ def replay_protocol(p):
         return {"violated": False, "inconclusive": True, "detail": "bounded search found nothing"}
     finally:
         loop.close()
-_orig = {}
 def scripts_copy(scripts, r, c):
-    key = id(scripts)
-    if key not in _orig: _orig.clear(); _orig[key] = [[list(call) for call in rs] for rs in scripts]
-    return _orig[key][r][c] if c < len(_orig[key][r]) else []
+    """the messages reader r was scripted to return on call c (the scripts are never mutated: FakeReader pops from its own copy of the outer list)"""
+    return scripts[r][c] if c < len(scripts[r]) else []
 
 def bounded_search(p):
     """used only when the deductive side is undecided: scripted readers (replay_protocol) and real readers on clean streams"""
